@@ -124,6 +124,10 @@ Definition is_var (t : tree) : bool :=
 Definition is_call (t : tree) : bool :=
   let g := tag_of t in (g =? tFunctionCall) || (g =? tFunctionCallMethod).
 
+(* a result that counts as None for Python but consumed tokens (`()`) is kept as a hidden entry *)
+Definition hid_list (p : tree) : list tree :=
+  match p with PNone => [] | _ => [Hid p] end.
+
 Definition opt_tok (a : option (Z * token)) : tree :=
   match a with Some (i, t) => Tok i t | None => PNone end.
 
@@ -363,7 +367,7 @@ Definition exp_term_def : M tree :=
   p <- prefixexp_def ;;
   if negb (is_none p) then mk tExpValue pos [p] else
   (* p is None; if it is `()` the cursor stays behind the parentheses *)
-  let hid := match p with PNone => [] | _ => [Hid p] end in
+  let hid := hid_list p in
   t <- tableconstructor_def ;;
   if negb (is_none t) then mk tExpValue pos (hid ++ [t]) else
   u <- accept_first unops ;;
